@@ -16,73 +16,193 @@ func init() {
 		Doc: "every un-timed WebSocket write/ping is controlled by SendTimeout only", Run: runWSDeadline})
 }
 
-func runWSDeadline(c *core.Ctx) {
+// wsOp: one WebSocket write/ping and the place where its context is decided.
+type wsOp struct {
+	short   string          // "Write" | "Ping"
+	owner   *ssa.Function   // function the operation is written in (for the obligation's name)
+	pos     ssa.Instruction // the operation (or the place a method value of it is handed on)
+	fn      *ssa.Function   // function in which the context value is chosen
+	ctx     ssa.Value       // that context value
+	at      *ssa.BasicBlock // block of fn in which it is used
+}
+
+// wsOps finds the operations. Normally the context is an argument of the call
+// itself. When the operation sits in a closure (or is a method value,
+// conn.Ping) that is handed to a module helper which calls it with a context
+// of its own — relay.withSendTimeout(ctx, func(ctx) error { return
+// conn.Write(ctx, …) }) — the context is decided in that helper, at the call
+// of its function parameter.
+func wsOps(c *core.Ctx) []wsOp {
 	P := c.P
-	n := 0
-	timedSomewhere := map[string]bool{}
+	var out []wsOp
+	isOp := func(name string) string {
+		switch name {
+		case "(*github.com/coder/websocket.Conn).Write":
+			return "Write"
+		case "(*github.com/coder/websocket.Conn).Ping":
+			return "Ping"
+		}
+		return ""
+	}
+	// handedTo: value v (a closure / method value made in maker) is argument k of a static call
+	// of module function h; returns h's dynamic calls of parameter k
+	handedTo := func(v ssa.Value) (*ssa.Function, []*ssa.Call) {
+		if v.Referrers() == nil {
+			return nil, nil
+		}
+		for _, r := range *v.Referrers() {
+			hc, ok := r.(*ssa.Call)
+			if !ok {
+				continue
+			}
+			h := an.StaticCallee(&hc.Call)
+			if !an.InModuleFn(h) || len(h.Params) != len(hc.Call.Args) {
+				continue
+			}
+			for k, a := range hc.Call.Args {
+				if a != v {
+					continue
+				}
+				var dyn []*ssa.Call
+				for _, ci := range calls(h) {
+					if dc, ok := ci.(*ssa.Call); ok && an.Unwrap(dc.Call.Value) == ssa.Value(h.Params[k]) {
+						dyn = append(dyn, dc)
+					}
+				}
+				if len(dyn) > 0 {
+					return h, dyn
+				}
+			}
+		}
+		return nil, nil
+	}
 	for _, fn := range P.ModFuncs {
 		if P.PkgOf(fn) != core.ModulePath {
 			continue
 		}
-		for _, ci := range calls(fn) {
-			call, ok := ci.(*ssa.Call)
-			if !ok {
+		an.Instrs(fn, func(in ssa.Instruction) {
+			switch x := in.(type) {
+			case *ssa.Call:
+				short := isOp(an.CalleeName(&x.Call))
+				if short == "" {
+					return
+				}
+				op := wsOp{short: short, owner: fn, pos: x, fn: fn, ctx: x.Call.Args[1], at: x.Block()}
+				// inside a closure, with the closure's own parameter as context
+				if par, ok := an.Unwrap(x.Call.Args[1]).(*ssa.Parameter); ok && fn.Parent() != nil {
+					pi := -1
+					for i, p := range fn.Params {
+						if p == par {
+							pi = i
+						}
+					}
+					an.Instrs(fn.Parent(), func(pin ssa.Instruction) {
+						mc, ok := pin.(*ssa.MakeClosure)
+						if !ok || mc.Fn != ssa.Value(fn) || pi < 0 {
+							return
+						}
+						if h, dyn := handedTo(mc); h != nil {
+							for _, dc := range dyn {
+								if pi < len(dc.Call.Args) {
+									o2 := op
+									o2.fn, o2.ctx, o2.at = h, dc.Call.Args[pi], dc.Block()
+									out = append(out, o2)
+								}
+							}
+							op.fn = nil
+						}
+					})
+				}
+				if op.fn != nil {
+					out = append(out, op)
+				}
+			case *ssa.MakeClosure:
+				// a method value conn.Ping / conn.Write handed on
+				bw, ok := x.Fn.(*ssa.Function)
+				if !ok || bw.Synthetic == "" || len(x.Bindings) != 1 {
+					return
+				}
+				target, _ := throughBound(bw)
+				if target == nil || target == bw {
+					return
+				}
+				short := isOp(an.FuncFullName(target))
+				if short == "" {
+					return
+				}
+				if h, dyn := handedTo(x); h != nil {
+					for _, dc := range dyn {
+						if len(dc.Call.Args) > 0 {
+							out = append(out, wsOp{short: short, owner: fn, pos: x, fn: h, ctx: dc.Call.Args[0], at: dc.Block()})
+						}
+					}
+				} else {
+					out = append(out, wsOp{short: short, owner: fn, pos: x})
+				}
+			}
+		})
+	}
+	return out
+}
+
+func runWSDeadline(c *core.Ctx) {
+	P := c.P
+	n := 0
+	timedSomewhere := map[string]bool{}
+	for _, op := range wsOps(c) {
+		n++
+		c.CountSites(1)
+		construct := "ctx-arg of (*websocket.Conn)." + op.short
+		owner := fname(c, op.owner)
+		if op.fn == nil {
+			c.Unknown(nil, owner, construct, P.Pos(op.pos.Pos()), "the operation is handed on as a function value; where it is called, and with which context, is not visible")
+			continue
+		}
+		fn := op.fn
+		// a free function that is handed the timeout: its parameter is what every caller passes
+		subst := uniformArgSubst(c, fn)
+		var problems []string
+		nTimed, nUntimed := 0, 0
+		paths, _ := an.PathsTo(fn, op.at, 1024)
+		c.CountPaths(len(paths))
+		for _, p := range paths {
+			if !an.Feasible(p) {
 				continue
 			}
-			name := an.CalleeName(&call.Call)
-			if name != "(*github.com/coder/websocket.Conn).Write" && name != "(*github.com/coder/websocket.Conn).Ping" {
-				continue
-			}
-			n++
-			c.CountSites(1)
-			short := name[strings.LastIndex(name, ".")+1:]
-			construct := "ctx-arg of (*websocket.Conn)." + short
-			ctxArg := call.Call.Args[1]
-			// a free function that is handed the timeout: its parameter is what every caller passes
-			subst := uniformArgSubst(c, fn)
-			var problems []string
-			nTimed, nUntimed := 0, 0
-			paths, _ := an.PathsTo(fn, call.Block(), 1024)
-			c.CountPaths(len(paths))
-			for _, p := range paths {
-				if !an.Feasible(p) {
+			for _, dc := range deadlineCases(fn, op.ctx, p, op.at, nil, 0, subst) {
+				if dc.timed {
+					nTimed++
 					continue
 				}
-				for _, dc := range deadlineCases(fn, ctxArg, p, call.Block(), nil, 0, subst) {
-					if dc.timed {
-						nTimed++
-						continue
+				nUntimed++
+				onlySend := false
+				for _, cp := range dc.conds {
+					if strings.Contains(cp, ".SendTimeout") {
+						onlySend = true
 					}
-					nUntimed++
-					onlySend := false
-					for _, cp := range dc.conds {
-						if strings.Contains(cp, ".SendTimeout") {
-							onlySend = true
-						}
-						for _, other := range []string{"PingDuration", "RecvRateLimit", "MaxMessageLength", "Logger"} {
-							if strings.Contains(cp, "."+other) {
-								problems = append(problems, fmt.Sprintf("the un-timed path is selected by %s, not by SendTimeout", cp))
-							}
+					for _, other := range []string{"PingDuration", "RecvRateLimit", "MaxMessageLength", "Logger"} {
+						if strings.Contains(cp, "."+other) {
+							problems = append(problems, fmt.Sprintf("the un-timed path is selected by %s, not by SendTimeout", cp))
 						}
 					}
-					if !onlySend {
-						problems = append(problems, "an un-timed path is taken without any test of SendTimeout")
-					}
+				}
+				if !onlySend {
+					problems = append(problems, "an un-timed path is taken without any test of SendTimeout")
 				}
 			}
-			uniq := map[string]bool{}
-			var ps []string
-			for _, p := range problems {
-				if !uniq[p] {
-					uniq[p] = true
-					ps = append(ps, p)
-				}
-			}
-			timedSomewhere[fname(c, fn)+short] = timedSomewhere[fname(c, fn)+short] || nTimed > 0
-			c.Check(len(ps) == 0, nil, fname(c, fn), construct, P.Pos(call.Pos()),
-				fmt.Sprintf("%d timed path(s) from WithTimeout(_, opt.SendTimeout); %d un-timed path(s) controlled by SendTimeout only", nTimed, nUntimed),
-				"with some option combination (e.g. PingDuration: 0, SendTimeout: 1s) a write to a peer that stopped reading blocks without deadline: "+strings.Join(ps, "; "))
 		}
+		uniq := map[string]bool{}
+		var ps []string
+		for _, p := range problems {
+			if !uniq[p] {
+				uniq[p] = true
+				ps = append(ps, p)
+			}
+		}
+		timedSomewhere[owner+op.short] = timedSomewhere[owner+op.short] || nTimed > 0
+		c.Check(len(ps) == 0, nil, owner, construct, P.Pos(op.pos.Pos()),
+			fmt.Sprintf("%d timed path(s) from WithTimeout(_, opt.SendTimeout); %d un-timed path(s) controlled by SendTimeout only", nTimed, nUntimed),
+			"with some option combination (e.g. PingDuration: 0, SendTimeout: 1s) a write to a peer that stopped reading blocks without deadline: "+strings.Join(ps, "; "))
 	}
 	if n == 0 {
 		c.NoAnchor(nil, "calls of (*websocket.Conn).Write/Ping")
